@@ -700,3 +700,467 @@ func ruleLexDispatch(c *Ctx) []Obligation {
 }
 
 var _ = token.NoPos
+
+// ---------------------------------------------------------------------
+// R-lex-scan: the loop-based scanners (comments, strings, names, numbers,
+// escapes). Entry contexts are collected from the call sites (NextToken
+// cases and calls between scanners) so that every method is analysed under
+// the facts its callers establish.
+
+func init() {
+	register(&Rule{ID: "R-lex-scan", Floor: 12, Run: ruleLexScan,
+		Doc: "in every scanner method of the lexer, under every entry context its call sites establish: (1) no path dereferences the current/next rune without an end-of-input test; (2) a scanning loop never steps over an input position at which its own exit condition (the terminator it tests at the loop head) could hold — every position is either tested as a loop head or its terminator is refuted by the path's facts; (3) in value-accumulating loops each consumed rune is appended to the value exactly once (append and advance pair up per iteration)"})
+}
+
+type lexEntry struct {
+	facts []charFact
+	from  string
+}
+
+func shiftFacts(fs []charFact, by int) []charFact {
+	var out []charFact
+	for _, f := range fs {
+		f.off -= by
+		if f.off < 0 {
+			if f.kind == fNil {
+				f.off = 0 // end of input persists
+				out = append(out, f)
+			}
+			continue
+		}
+		out = append(out, f)
+	}
+	return out
+}
+
+func entryKey(fs []charFact) string {
+	st := &lexState{facts: fs}
+	return st.factString()
+}
+
+func ruleLexScan(c *Ctx) []Obligation {
+	r := discoverLexRoles(c)
+	info := r.info
+	var obs []Obligation
+	// collect entry contexts by walking from NextToken
+	entries := map[string][]lexEntry{}
+	addEntry := func(fn string, fs []charFact, from string) bool {
+		k := entryKey(fs)
+		for _, e := range entries[fn] {
+			if entryKey(e.facts) == k {
+				return false
+			}
+		}
+		entries[fn] = append(entries[fn], lexEntry{facts: fs, from: from})
+		return true
+	}
+	type work struct {
+		fn string
+		e  lexEntry
+	}
+	var queue []work
+	addEntry("NextToken", nil, "entry")
+	queue = append(queue, work{"NextToken", lexEntry{from: "entry"}})
+	analysed := 0
+	keyCount := map[string]int{}
+	for len(queue) > 0 {
+		w := queue[0]
+		queue = queue[1:]
+		fd := FuncDecl(r.pkg, "Lexer", w.fn)
+		if fd == nil || fd.Body == nil {
+			continue
+		}
+		if fn, _ := info.Defs[fd.Name].(*types.Func); fn == r.advance {
+			continue
+		}
+		analysed++
+		res := scanWalk(r, fd, w.e.facts)
+		ctxKey := fmt.Sprintf("lexer.%s|from %s[%s]", w.fn, w.e.from, positiveFacts(w.e.facts))
+		keyCount[ctxKey]++
+		if keyCount[ctxKey] > 1 {
+			ctxKey += fmt.Sprintf("#%d", keyCount[ctxKey])
+		}
+		// (1) nil deref
+		o := Obligation{Key: ctxKey + "|deref", Pos: c.Pos(fd.Pos()), Nontrivial: true}
+		if res.overflow || len(res.unsupported) > 0 {
+			o.Status, o.Detail = Undecided, "path enumeration overflow / unsupported control flow"
+		} else if len(res.deref) > 0 {
+			o.Status, o.Detail = Violated, strings.Join(uniqStrings(res.deref), "; ")+" (entry from "+w.e.from+")"
+		} else {
+			o.Status, o.Detail = Discharged, fmt.Sprintf("%d paths, every rune dereference follows an end-of-input test", res.paths)
+		}
+		obs = append(obs, o)
+		// (2) loops
+		for _, lr := range res.loops {
+			lo := Obligation{Key: ctxKey + "|loop#" + fmt.Sprint(lr.index) + "|no terminator skipped", Pos: c.Pos(lr.pos), Nontrivial: true}
+			if len(lr.skips) > 0 {
+				lo.Status, lo.Detail = Violated, strings.Join(uniqStrings(lr.skips), "; ")
+			} else {
+				lo.Status, lo.Detail = Discharged, fmt.Sprintf("exit conditions %v; %d continuing path(s), each advances over positions whose terminator is refuted or tested", lr.terms, lr.conts)
+			}
+			obs = append(obs, lo)
+			if lr.accum {
+				ao := Obligation{Key: ctxKey + "|loop#" + fmt.Sprint(lr.index) + "|append/advance pairing", Pos: c.Pos(lr.pos), Nontrivial: true}
+				if len(lr.pairFail) > 0 {
+					ao.Status, ao.Detail = Violated, strings.Join(uniqStrings(lr.pairFail), "; ")
+				} else {
+					ao.Status, ao.Detail = Discharged, "each iteration that appends the rune at offset k to the value advances exactly once past k"
+				}
+				obs = append(obs, ao)
+			}
+		}
+		for _, cs := range res.calls {
+			if addEntry(cs.fn, cs.facts, w.fn) {
+				queue = append(queue, work{cs.fn, lexEntry{facts: cs.facts, from: w.fn}})
+			}
+		}
+		if analysed > 400 {
+			obs = append(obs, Obligation{Key: "lexer|entry contexts", Status: Undecided, Detail: "entry-context exploration did not converge"})
+			break
+		}
+	}
+	return obs
+}
+
+func uniqStrings(in []string) []string {
+	seen := map[string]bool{}
+	var out []string
+	for _, s := range in {
+		if !seen[s] {
+			seen[s] = true
+			out = append(out, s)
+		}
+	}
+	sort.Strings(out)
+	return out
+}
+
+type scanCall struct {
+	fn    string
+	facts []charFact
+}
+
+type scanLoop struct {
+	index    int
+	pos      token.Pos
+	terms    []string
+	conts    int
+	skips    []string
+	accum    bool
+	pairFail []string
+}
+
+type scanResult struct {
+	paths       int
+	overflow    bool
+	unsupported []token.Pos
+	deref       []string
+	calls       []scanCall
+	loops       []*scanLoop
+}
+
+// scanWalk walks one method with loops unrolled twice, recording deref
+// violations, calls to other scanners (with the facts at the call, relative
+// to the cursor) and per-loop iteration summaries.
+func scanWalk(r *lexRoles, fd *ast.FuncDecl, entry []charFact) *scanResult {
+	info := r.info
+	res := &scanResult{}
+	ev := &lexEval{r: r}
+	if fd.Recv != nil && len(fd.Recv.List[0].Names) > 0 {
+		ev.recv, _ = info.Defs[fd.Recv.List[0].Names[0]].(*types.Var)
+	}
+	init := &lexState{env: map[types.Object]lv{}}
+	init.facts = append(init.facts, entry...)
+	// ---- pass A: whole-function walk for deref + calls
+	record := func(st *lexState, call *ast.CallExpr) {
+		fn := CalleeOf(info, call)
+		if fn == nil || fn == r.advance || fn == r.newToken {
+			return
+		}
+		if sig, ok := fn.Type().(*types.Signature); ok && sig.Recv() != nil && recvNamed(sig.Recv().Type()) == r.lexerT {
+			res.calls = append(res.calls, scanCall{fn: fn.Name(), facts: shiftFacts(st.facts, st.off)})
+		}
+	}
+	var w *Walker[*lexState]
+	mk := func() *Walker[*lexState] {
+		return &Walker[*lexState]{
+			Clone:      cloneLex,
+			LoopUnroll: 2,
+			MaxPaths:   40000,
+			IsPanic:    func(s ast.Stmt) bool { return IsPanicCall(info, s) },
+			OnCond: func(st *lexState, cond ast.Expr, taken bool) (*lexState, bool) {
+				f, ok := ev.condFact(st, cond, taken)
+				if !ok {
+					return st, true
+				}
+				if (f.kind == fEq || f.kind == fNe || f.kind == fIn || f.kind == fNotIn) && !derefSafe(st, f.off) {
+					res.deref = append(res.deref, fmt.Sprintf("`%s` reads the rune at cursor+%d, which may be past the end of input on the path [%s]", exprStr(cond), f.off-st.off, st.factString()))
+				}
+				if !st.add(f) {
+					return st, false
+				}
+				return st, true
+			},
+			OnCase: func(st *lexState, sw *ast.SwitchStmt, vals, others []ast.Expr) (*lexState, bool) {
+				tag := ev.eval(st, sw.Tag)
+				if tag.k != lvChar {
+					return st, true
+				}
+				if !derefSafe(st, tag.off) {
+					res.deref = append(res.deref, fmt.Sprintf("`switch %s` reads the rune at cursor+%d, which may be past the end of input on the path [%s]", exprStr(sw.Tag), tag.off-st.off, st.factString()))
+				}
+				if vals == nil {
+					for _, o := range others {
+						if tv := info.Types[o]; tv.Value != nil {
+							n, _ := constant.Int64Val(constant.ToInt(tv.Value))
+							if !st.add(charFact{off: tag.off, kind: fNe, r: rune(n)}) {
+								return st, false
+							}
+						}
+					}
+					return st, true
+				}
+				var rs runeSet
+				for _, v := range vals {
+					tv := info.Types[v]
+					if tv.Value == nil {
+						return st, true
+					}
+					n, _ := constant.Int64Val(constant.ToInt(tv.Value))
+					rs.ranges = append(rs.ranges, [2]rune{rune(n), rune(n)})
+				}
+				if len(rs.ranges) == 1 {
+					return st, st.add(charFact{off: tag.off, kind: fEq, r: rs.ranges[0][0]})
+				}
+				set := rs.norm()
+				return st, st.add(charFact{off: tag.off, kind: fIn, set: &set, name: set.String()})
+			},
+			OnStmt: func(st *lexState, s ast.Stmt) (*lexState, bool) {
+				// any expression that dereferences a cursor pointer outside a condition;
+				// post-order, so that call arguments are evaluated before the call's effect
+				var visit func(n ast.Node)
+				visit = func(n ast.Node) {
+					switch x := n.(type) {
+					case nil:
+						return
+					case *ast.FuncLit:
+						return
+					case *ast.StarExpr:
+						if p := ev.eval(st, x.X); p.k == lvCharPtr && !derefSafe(st, p.off) {
+							res.deref = append(res.deref, fmt.Sprintf("`%s` reads the rune at cursor+%d, which may be past the end of input on the path [%s]", exprStr(x), p.off-st.off, st.factString()))
+						}
+						return
+					case *ast.CallExpr:
+						for _, a := range x.Args {
+							visit(a)
+						}
+						fn := CalleeOf(info, x)
+						if fn == r.advance {
+							st.events = append(st.events, lexEvent{kind: "advance", off: st.off, pos: x.Pos()})
+							st.off++
+						} else if fn != nil {
+							record(st, x)
+							if sig, ok := fn.Type().(*types.Signature); ok && sig.Recv() != nil && recvNamed(sig.Recv().Type()) == r.lexerT && fn != r.newToken {
+								// a sub-scanner consumes an unknown number of runes: forget what we
+								// know about positions at and beyond the cursor
+								st.events = append(st.events, lexEvent{kind: "call", off: st.off, what: fn.Name(), pos: x.Pos()})
+								st.off += 1000
+							}
+						}
+						return
+					}
+					ast.Inspect(n, func(m ast.Node) bool {
+						if m == n || m == nil {
+							return true
+						}
+						switch m.(type) {
+						case *ast.FuncLit, *ast.StarExpr, *ast.CallExpr:
+							visit(m)
+							return false
+						}
+						return true
+					})
+				}
+				visit(s)
+				// appends to an accumulator: value += string(ch) / buf = append(buf, ch)
+				if as, ok := s.(*ast.AssignStmt); ok && len(as.Lhs) == 1 && len(as.Rhs) == 1 {
+					if as.Tok == token.ADD_ASSIGN {
+						v := ev.eval(st, as.Rhs[0])
+						if v.k == lvStrOfChar || v.k == lvChar {
+							st.events = append(st.events, lexEvent{kind: "append", off: v.off, pos: as.Pos()})
+						}
+					} else if call, ok := ast.Unparen(as.Rhs[0]).(*ast.CallExpr); ok {
+						if id, ok := call.Fun.(*ast.Ident); ok && id.Name == "append" && len(call.Args) == 2 {
+							v := ev.eval(st, call.Args[1])
+							if v.k == lvChar || v.k == lvStrOfChar {
+								st.events = append(st.events, lexEvent{kind: "append", off: v.off, pos: as.Pos()})
+							}
+						}
+					}
+					// plain local bindings
+					if id, ok := as.Lhs[0].(*ast.Ident); ok && as.Tok != token.ADD_ASSIGN {
+						obj := info.Defs[id]
+						if obj == nil {
+							obj = info.Uses[id]
+						}
+						if obj != nil {
+							st.env[obj] = ev.eval(st, as.Rhs[0])
+						}
+					}
+				}
+				return st, true
+			},
+		}
+	}
+	w = mk()
+	w.Exit = func(st *lexState, o outcome) {}
+	w.Run(fd.Body, init)
+	res.paths, res.overflow, res.unsupported = w.Paths, w.Overflow, w.Unsupported
+	// ---- pass B: per-loop iteration analysis (body walked once from a havoc state
+	// that keeps only "cursor is not at end of input" when the loop condition says so)
+	idx := 0
+	ast.Inspect(fd.Body, func(n ast.Node) bool {
+		fs, ok := n.(*ast.ForStmt)
+		if !ok {
+			return true
+		}
+		idx++
+		lr := &scanLoop{index: idx, pos: fs.Pos()}
+		advances := false
+		ast.Inspect(fs.Body, func(m ast.Node) bool {
+			if call, ok := m.(*ast.CallExpr); ok {
+				if fn := CalleeOf(info, call); fn == r.advance {
+					advances = true
+				}
+			}
+			return true
+		})
+		if !advances {
+			return true
+		}
+		res.loops = append(res.loops, lr)
+		type iterPath struct {
+			st    *lexState
+			exits bool
+		}
+		var paths []iterPath
+		lw := mk()
+		lw.LoopUnroll = 1
+		// wrap: treat the loop as `if cond { body; CONTINUE } else { EXIT }` by walking a
+		// synthetic single iteration: evaluate cond true → body; cond false → exit.
+		start := &lexState{env: map[types.Object]lv{}}
+		collect := func(st *lexState, exits bool) { paths = append(paths, iterPath{st, exits}) }
+		runBody := func(st *lexState) {
+			lw.stmts(fs.Body.List, st, func(s2 *lexState, o outcome) {
+				switch o.kind {
+				case cNormal, cContinue:
+					collect(s2, false)
+				default:
+					collect(s2, true)
+				}
+			})
+		}
+		if fs.Cond != nil {
+			lw.cond(fs.Cond, cloneLex(start), false, func(s1 *lexState) { collect(s1, true) })
+			lw.cond(fs.Cond, start, true, runBody)
+		} else {
+			runBody(start)
+		}
+		// exit conditions: positive rune facts of exiting paths that advanced at most the
+		// terminator itself; keep only constant facts
+		type term struct{ facts []charFact }
+		var terms []term
+		for _, p := range paths {
+			if !p.exits {
+				continue
+			}
+			var t term
+			for _, f := range p.st.facts {
+				if f.kind == fEq || f.kind == fIn {
+					t.facts = append(t.facts, f)
+				}
+			}
+			if len(t.facts) > 0 {
+				terms = append(terms, t)
+				lr.terms = append(lr.terms, (&lexState{facts: t.facts}).factString())
+			}
+		}
+		sort.Strings(lr.terms)
+		for _, p := range paths {
+			if p.exits {
+				continue
+			}
+			lr.conts++
+			// positions advanced over directly
+			var adv []int
+			hasCall := false
+			for _, e := range p.st.events {
+				if e.kind == "advance" {
+					adv = append(adv, e.off)
+				}
+				if e.kind == "call" {
+					hasCall = true
+				}
+			}
+			if hasCall {
+				continue // positions consumed by a sub-scanner are that scanner's obligation
+			}
+			for _, j := range adv {
+				if j == 0 {
+					continue // the loop head position: its terminator was tested by this very iteration
+				}
+				for _, t := range terms {
+					// shift terminator by j and try to refute with the path facts
+					refuted := false
+					probe := cloneLex(p.st)
+					for _, f := range t.facts {
+						f.off += j
+						if !probe.add(f) {
+							refuted = true
+							break
+						}
+					}
+					if !refuted {
+						lr.skips = append(lr.skips, fmt.Sprintf("an iteration [%s] advances over cursor+%d without testing the exit condition [%s] there: a terminator starting at that position is stepped over", p.st.factString(), j, (&lexState{facts: t.facts}).factString()))
+					}
+				}
+			}
+			// append/advance pairing
+			var apps []int
+			for _, e := range p.st.events {
+				if e.kind == "append" {
+					apps = append(apps, e.off)
+				}
+			}
+			if len(apps) > 0 {
+				lr.accum = true
+				if len(apps) != len(adv) {
+					lr.pairFail = append(lr.pairFail, fmt.Sprintf("an iteration appends %d rune(s) but advances %d time(s) [%s]", len(apps), len(adv), p.st.factString()))
+				} else {
+					for i := range apps {
+						if apps[i] != adv[i] {
+							lr.pairFail = append(lr.pairFail, fmt.Sprintf("an iteration appends the rune at cursor+%d but advances past cursor+%d", apps[i], adv[i]))
+						}
+					}
+				}
+			}
+		}
+		return true
+	})
+	return res
+}
+
+func positiveFacts(fs []charFact) string {
+	var b []string
+	for _, f := range fs {
+		switch f.kind {
+		case fEq:
+			b = append(b, fmt.Sprintf("ch[%d]==%q", f.off, f.r))
+		case fIn:
+			b = append(b, fmt.Sprintf("ch[%d] in %s", f.off, f.name))
+		case fNil:
+			b = append(b, fmt.Sprintf("ch[%d]=EOF", f.off))
+		}
+	}
+	return strings.Join(b, ",")
+}
